@@ -14,11 +14,11 @@ CLASSES = ["AUTH", "PERMISSION", "PERMANENT", "CONCURRENCY", "RATE_LIMIT", "SERV
 RETRYABLE = ["CONCURRENCY", "RATE_LIMIT", "SERVER_ERROR", "TRANSIENT", "UNKNOWN"]
 G = 1.0 / 64.0
 DUR = [0.0, 0.0, G, 0.25, 0.5, 1.0, 2.0]
-DEADLINES = [0.0, 0.25, 0.5, 1.0, 2.0, 5.0, 1000.0, 1000.0, 1000.0]
-STRAT_VALUES = [0.0, G, 0.25, 0.5, 1.0, 3.0, "nan", "inf", "-inf", -1.0, -0.0, 1e9]
-STRAT_VALUES_HUGE = STRAT_VALUES + ["hugeint", 7, 10**30]
+DEADLINES = [0.0, 0.25, 0.5, 1.0, 2.0, 5.0, 1000.0, 1000.0, 1000.0, 86430.0, 200000.0]  # incl. more than a day
+STRAT_VALUES = [0.0, G, 0.25, 0.5, 1.0, 3.0, "nan", "inf", "-inf", -1.0, -0.0, 1e9, 2, 5]
+STRAT_VALUES_HUGE = STRAT_VALUES + ["hugeint", 7, 10**30, "-hugeint", -(10**30)]
 OVERSHOOT = [0.0, 0.0, 0.0, G, 0.25, 1.0]
-EXC_FAMILIES = ("plain", "runtime", "os", "frozen", "empty", "group")
+EXC_FAMILIES = ("plain", "runtime", "os", "frozen", "empty", "group", "type", "timeout", "poolcancel", "badstr")
 # ordinary exceptions a caller callback may die with (the type can matter: handlers written for one type catch another by accident)
 CB_EXCS = ["RuntimeError", "ValueError", "KeyError", "OverflowError", "ZeroDivisionError", "TypeError", "AttributeError", "OSError"]
 SPECIALS_ALL = ["abort", "cancel", "kbd", "sysexit", "nested_exh", "nested_open", "genexit", "base"]
@@ -188,7 +188,7 @@ def rand_scenario(
         if has_handler:
             pool = ["sleep", "sleep", "sleep", "defer", "abort"]
             if p_bogus_handler and rng.random() < p_bogus_handler:
-                pool = pool + ["bogus"]
+                pool = pool + ["bogus", "bogus:sleep", "bogus:defer", "bogus:abort"]
             handler = [rng.choice(pool) for _ in range(nout)]
         if p_abort_flag and rng.random() < p_abort_flag:
             extra_abort = rng.randint(1, n)
@@ -236,6 +236,8 @@ def rand_scenario(
         "hook_edits_tags": rng.random() < 0.25,  # the metric hook writes a label into the tags dict it receives
         "warnings_as_errors": rng.random() < 0.15,  # the process escalates warnings to errors
         "op_cm": rng.random() < 0.2,  # the operation works inside a generator-based context manager / ExitStack
+        "val_kind": "odd" if rng.random() < 0.2 else "plain",  # success values that are awaitable objects, rejected results without a repr
+        "hook_set": rng.choice(["both"] * 6 + ["log", "metric"]),  # which observability sinks the caller attaches
     }
 
 
